@@ -91,7 +91,7 @@ pub fn c01(a: &Args) {
     });
     lexical_variants(a, &mut out, &mut rng);
     corpus_c01(a, &mut out);
-    crate::cli_props::cli_pass(a, &mut out, &mut rng, &["count"]);
+    crate::cli_props::cli_pass(a, &mut out, &mut rng, &["count", "count-stdin"]);
     out.finish("(+ CLI pass: the rebuilt binary's `count` on a sample of the models, judged by the same oracles) G1: every satisfiable function over 1..3 features x every order x {d4 tree, d4 shared, d4 shared+f-edges, c2d tree, c2d shared} (sampled in quick tier), G3: random well-formed d4 / c2d circuits (n<=9); a case is non-trivial when the function is neither constant true nor has <3 lines; distinct by file text; lexical variants: the raw lines of generated files with blanks doubled / turned into tabs, leading zeros, dropped or doubled terminators, trailing blanks and junk, signs: the real loader (array or panic) vs the character-level lexer models + loader model");
 }
 
@@ -225,7 +225,8 @@ pub fn c02(a: &Args) {
         }
     });
     corpus_c02(a, &mut out, &mut r2);
-    out.finish("every model of the C01 space x (all 3^n consistent partial assignments for n<=5 quick / n<=7 thorough, else 200 random ones) + random lists with duplicates/contradictions of lengths 1,2,3,5,19,20,21,22,40; non-trivial = non-constant function and non-empty list; distinct by (file text, list)");
+    crate::cli_props::cli_pass(a, &mut out, &mut rng, &["count", "count-queries"]);
+    out.finish("(+ CLI pass: the rebuilt binary's `count / count-queries` on a sample of the models) every model of the C01 space x (all 3^n consistent partial assignments for n<=5 quick / n<=7 thorough, else 200 random ones) + random lists with duplicates/contradictions of lengths 1,2,3,5,19,20,21,22,40; non-trivial = non-constant function and non-empty list; distinct by (file text, list)");
 }
 
 fn corpus_c02(a: &Args, out: &mut Out, rng: &mut Rng) {
